@@ -1560,4 +1560,174 @@ theorem idle_exits {peer : Nat → Nat} {n : Nat} {s : Sys} (hr : Reach peer n s
     have := (hidle svc hsvc).2 la hla
     omega
 
+/-! ### idle runs: nothing happens but time passing and keep-alive polls -/
+
+def idleLabel : Label → Bool
+  | .advance _ => true
+  | .poll _ => true
+  | _ => false
+
+/-- How protocol state `svc'` after an idle run relates to `svc` before it, at time `now'`. -/
+def IdleRel (c now' : Nat) (svc svc' : Svc) : Prop :=
+  svc'.T = svc.T ∧ (svc.holds c = 0 → svc'.holds c = 0) ∧
+  (0 < svc.holds c → ∀ la, aget svc.tr.last c = some la →
+    (0 < svc'.holds c ∧ aget svc'.tr.last c = some la) ∨ (svc'.holds c = 0 ∧ la + svc.T ≤ now'))
+
+theorem IdleRel.refl' (c now' : Nat) (svc : Svc) : IdleRel c now' svc svc :=
+  ⟨rfl, fun h => h, fun hp la hla => Or.inl ⟨hp, hla⟩⟩
+
+theorem IdleRel.trans {c t1 t2 : Nat} {a b d : Svc} (h1 : IdleRel c t1 a b) (h2 : IdleRel c t2 b d) (hle : t1 ≤ t2) :
+    IdleRel c t2 a d := by
+  obtain ⟨a1, a2, a3⟩ := h1
+  obtain ⟨b1, b2, b3⟩ := h2
+  refine ⟨b1.trans a1, fun h => b2 (a2 h), fun hp la hla => ?_⟩
+  rcases a3 hp la hla with ⟨hp', hla'⟩ | ⟨hz, hge⟩
+  · rcases b3 hp' la hla' with h | ⟨hz, hge⟩
+    · exact Or.inl h
+    · exact Or.inr ⟨hz, by rw [a1] at hge; exact hge⟩
+  · exact Or.inr ⟨b2 hz, by omega⟩
+
+theorem idle_step {peer : Nat → Nat} {n n' : Nat} {s s' : Sys} (hr : Reach peer n s) (c : Nat) (l : Label)
+    (hl : idleLabel l = true) (hst : s.step peer n l = some (n', s')) :
+    s.now ≤ s'.now ∧ permits s' c = permits s c ∧
+    ∀ (i : Nat) (svc : Svc), s.svcs[i]? = some svc → ∃ svc', s'.svcs[i]? = some svc' ∧ IdleRel c s'.now svc svc' := by
+  have hinv := hr.inv
+  cases l with
+  | advance dt =>
+    simp only [Sys.step] at hst
+    split at hst
+    · simp only [Option.some.injEq, Prod.mk.injEq] at hst
+      obtain ⟨_, rfl⟩ := hst
+      exact ⟨Nat.le_add_right _ _, rfl, fun i svc hi => ⟨svc, hi, IdleRel.refl' _ _ _⟩⟩
+    · cases hst
+  | poll j =>
+    simp only [Sys.step] at hst
+    cases hsv : s.svcs[j]? with
+    | none => rw [hsv] at hst; cases hst
+    | some x =>
+      rw [hsv] at hst
+      simp only [Option.some.injEq, Prod.mk.injEq] at hst
+      obtain ⟨_, rfl⟩ := hst
+      refine ⟨Nat.le_refl _, rfl, fun i svc hi => ?_⟩
+      by_cases hji : j = i
+      · subst hji
+        rw [hsv] at hi; cases hi
+        have hlt : j < s.svcs.length := (List.getElem?_eq_some_iff.mp hsv).1
+        refine ⟨x.pollKeepAlive s.now, by simp [setSvc, hlt], rfl, ?_, ?_⟩
+        · intro hz
+          have := svc_poll_le x c s.now (hinv.svc x (List.mem_of_getElem? hsv)).distinct
+          omega
+        · intro hp la hla
+          rcases pollKeepAlive_drop x (hinv.svc x (List.mem_of_getElem? hsv)) c hp with ⟨hz, la', hla', hge⟩ | ⟨hs, he⟩
+          · rw [hla] at hla'; cases hla'
+            exact Or.inr ⟨hz, hge⟩
+          · exact Or.inl ⟨by omega, by rw [he]; exact hla⟩
+      · refine ⟨svc, ?_, IdleRel.refl' _ _ _⟩
+        show (setSvc s.svcs j _)[i]? = some svc
+        unfold setSvc
+        rw [List.getElem?_set_ne hji]; exact hi
+  | established _ => cases hl
+  | closed _ => cases hl
+  | «open» _ _ => cases hl
+  | recv _ => cases hl
+  | subOpen _ _ => cases hl
+  | subFail _ _ => cases hl
+  | subInbound _ _ => cases hl
+  | dropSub _ _ => cases hl
+  | deliver _ => cases hl
+
+theorem steps_svcs_length {peer : Nat → Nat} (ls : List Label) : ∀ {n n' : Nat} {s s' : Sys},
+    Sys.steps peer n s ls = some (n', s') → s'.svcs.length = s.svcs.length := by
+  induction ls with
+  | nil =>
+    intro n n' s s' he
+    simp only [Sys.steps, Option.some.injEq, Prod.mk.injEq] at he
+    obtain ⟨_, rfl⟩ := he; rfl
+  | cons l ls ih =>
+    intro n n' s s' he
+    simp only [Sys.steps] at he
+    cases hst : s.step peer n l with
+    | none => rw [hst] at he; cases he
+    | some v =>
+      obtain ⟨n1, s1⟩ := v
+      rw [hst] at he
+      exact (ih he).trans (step_svcs_length l hst)
+
+theorem idle_run {peer : Nat → Nat} (c : Nat) (ls : List Label) : ∀ {n n' : Nat} {s s' : Sys}, Reach peer n s →
+    (∀ l ∈ ls, idleLabel l = true) → Sys.steps peer n s ls = some (n', s') →
+    s.now ≤ s'.now ∧ permits s' c = permits s c ∧
+    ∀ (i : Nat) (svc : Svc), s.svcs[i]? = some svc → ∃ svc', s'.svcs[i]? = some svc' ∧ IdleRel c s'.now svc svc' := by
+  induction ls with
+  | nil =>
+    intro n n' s s' _ _ he
+    simp only [Sys.steps, Option.some.injEq, Prod.mk.injEq] at he
+    obtain ⟨_, rfl⟩ := he
+    exact ⟨Nat.le_refl _, rfl, fun i svc hi => ⟨svc, hi, IdleRel.refl' _ _ _⟩⟩
+  | cons l ls ih =>
+    intro n n' s s' hr hall he
+    simp only [Sys.steps] at he
+    cases hst : s.step peer n l with
+    | none => rw [hst] at he; cases he
+    | some v =>
+      obtain ⟨n1, s1⟩ := v
+      rw [hst] at he
+      obtain ⟨a1, a2, a3⟩ := idle_step hr c l (hall l List.mem_cons_self) hst
+      obtain ⟨b1, b2, b3⟩ := ih (Reach.step l hr hst) (fun l' hl' => hall l' (List.mem_cons_of_mem _ hl')) he
+      refine ⟨by omega, b2.trans a2, fun i svc hi => ?_⟩
+      obtain ⟨svc1, hi1, r1⟩ := a3 i svc hi
+      obtain ⟨svc2, hi2, r2⟩ := b3 i svc1 hi1
+      exact ⟨svc2, hi2, r1.trans r2 b1⟩
+
+/-- **Exactly at `max (last_activity + T)`.** From a reachable state in which no permit of `c` is around, let
+nothing happen but time passing (as far as the environment hypothesis allows) and keep-alive polls, in any
+order, ending in a state where every protocol has polled. Then the loop has exited iff, for every protocol
+that held `c` at the start, its timeout has elapsed since its last activity. -/
+theorem idle_run_exits_iff {peer : Nat → Nat} {n n' : Nat} {s s' : Sys} (hr : Reach peer n s) (c : Nat)
+    (hperm : permits s c = 0) (ls : List Label) (hall : ∀ l ∈ ls, idleLabel l = true)
+    (hst : Sys.steps peer n s ls = some (n', s')) (hpolled : ∀ svc' ∈ s'.svcs, Polled svc' s'.now) :
+    exits s' c = true ↔
+      ∀ svc ∈ s.svcs, 0 < svc.holds c → ∀ la, aget svc.tr.last c = some la → la + svc.T ≤ s'.now := by
+  obtain ⟨_, hp', hrel⟩ := idle_run c ls hr hall hst
+  have hr' : Reach peer n' s' := Reach.steps ls hr hst
+  have hperm' : permits s' c = 0 := hp'.trans hperm
+  constructor
+  · intro hex svc hsvc hpos la hla
+    obtain ⟨i, hlt, hget⟩ := List.getElem_of_mem hsvc
+    have hi : s.svcs[i]? = some svc := by rw [List.getElem?_eq_getElem hlt, hget]
+    obtain ⟨svc', hi', _, _, h3⟩ := hrel i svc hi
+    rcases h3 hpos la hla with ⟨hp2, _⟩ | ⟨_, hge⟩
+    · exfalso
+      have : 0 < handles s'.svcs c := (handles_pos_iff _ _).mpr ⟨svc', List.mem_of_getElem? hi', hp2⟩
+      unfold exits strong at hex
+      simp only [beq_iff_eq] at hex
+      omega
+    · exact hge
+  · intro hall'
+    by_cases hz : handles s'.svcs c = 0
+    · unfold exits strong; simp [hz, hperm']
+    · exfalso
+      obtain ⟨svc', hsvc', hh⟩ := (handles_pos_iff _ _).mp (Nat.pos_of_ne_zero hz)
+      obtain ⟨i, hlt, hget⟩ := List.getElem_of_mem hsvc'
+      have hi' : s'.svcs[i]? = some svc' := by rw [List.getElem?_eq_getElem hlt, hget]
+      cases hi : s.svcs[i]? with
+      | none =>
+        have hlen := steps_svcs_length ls hst
+        have := List.getElem?_eq_none_iff.mp hi
+        omega
+      | some svc =>
+        obtain ⟨svc2, hi2, hT, h2, h3⟩ := hrel i svc hi
+        rw [hi'] at hi2; cases hi2
+        have hpos : 0 < svc.holds c := by
+          by_cases hz0 : svc.holds c = 0
+          · have := h2 hz0; omega
+          · omega
+        obtain ⟨la, hla, _⟩ := (hr.inv.svc svc (List.mem_of_getElem? hi)).holder c hpos
+        rcases h3 hpos la hla with ⟨_, hla'⟩ | ⟨hz2, _⟩
+        · obtain ⟨la2, hla2, _, _, hp⟩ := (hr'.inv.svc svc' hsvc').holder c hh
+          rw [hla'] at hla2; cases hla2
+          have h1 := hp (hpolled svc' hsvc')
+          have h4 := hall' svc (List.mem_of_getElem? hi) hpos la hla
+          rw [hT] at h1; omega
+        · omega
+
 end Litep2pVerif.Service.KA
